@@ -41,6 +41,8 @@ type hCfg struct {
 	Seqs         func(rng *rand.Rand) uint32
 	Extras       bool // also heartbeat / PFD management requests and response-type messages
 	SamePrecPair bool // the uplink and the downlink PDR of a pair (same filter) carry the same precedence
+	NoRelease    bool // run() leaves the associations (and live sessions) in place
+	AddrBase     int  // first host number of this runner's peer addresses (default 20)
 	SafeQER      bool // steer around the session-QER heuristic's known unsound shapes (owned by C09): with 2+ QERs the
 	// last one is a non-GBR QER with the strictly largest uplink MBR, referenced last by every PDR, and is not updated
 }
@@ -838,8 +840,12 @@ func (h *hRunner) step(op *hOp) bool {
 
 // run executes a whole history on fresh associations and releases them at the end.
 func (h *hRunner) run() bool {
-	for i := 0; i < h.cfg.NAssoc; i++ {
-		p, err := vNewPeer(vEnv.addr(20+i), h.a.opts.N4)
+	ab := h.cfg.AddrBase
+	if ab == 0 {
+		ab = 20
+	}
+	for i := len(h.peers); i < h.cfg.NAssoc; i++ {
+		p, err := vNewPeer(vEnv.addr(ab+i), h.a.opts.N4)
 		if err != nil {
 			h.res.inconclusive("peer socket: " + err.Error())
 			return false
@@ -847,16 +853,21 @@ func (h *hRunner) run() bool {
 		h.peers = append(h.peers, p)
 		h.up = append(h.up, false)
 	}
-	defer func() {
-		for _, p := range h.peers {
-			p.close()
-		}
-	}()
+	if !h.cfg.NoRelease {
+		defer func() {
+			for _, p := range h.peers {
+				p.close()
+			}
+		}()
+	}
 	steps := h.cfg.Steps + h.cfg.NAssoc
 	for i := 0; i < steps; i++ {
 		if !h.step(h.next()) {
 			return false
 		}
+	}
+	if h.cfg.NoRelease {
+		return true
 	}
 	// end: release every association (sessions are removed with it) and check the final state
 	for i := range h.peers {
